@@ -200,6 +200,26 @@ PROPS["C18"] = {
     "explanation": "incremental maintenance on/off differential over bounded histories",
 }
 
+PROPS["C25"] = {
+    "engine": "bounded-standin",
+    "standin": ["standin_hnsw_history"],
+    "verus": [],
+    "kani": [],
+    "level": "exploration",
+    "level_text": "BOUNDED STAND-IN ONLY - nothing is proved for this property. HnswIndex keeps its state behind parking_lot::RwLock (Kani compiler ICE; no Verus specification), the graph is hnsw_rs (unsafe, rayon), save/load are files + serde. The real HnswIndex (Euclidean, dimension 2, ef 200) is driven through the Index trait with every history of length <= 4 (thorough 5) over 8 steps (insert/update of 3 identifiers, delete of 2, delete of an identifier never inserted, rebuild from the live entries, save + load into a new index) from two starting contents (empty; 4 entries, so that one delete stays below the auto-compaction threshold) and compared after every step with the model live = identifier -> latest vector: len() - tombstone_count() is the number of live identifiers; search with k above the index size returns exactly the live identifiers, each at its distance to its latest vector; dimension; tombstone_count() bounded by the deletes of present identifiers since the last rebuild; save + load preserves len, tombstone_count, dimension, configuration and every search answer.",
+    "level_note": "bounded: <= 7 entries of dimension 2, Euclidean metric only, histories of <= 4 (thorough 5) steps; relies on the HNSW search being exhaustive at this size with ef = 200 (as the repository's own tests do); IndexManager and the incremental engine's UpdateIndex path are not exercised",
+    "technique": "bounded stand-in tests on the real code (cargo test in a scratch copy of the working tree, module injected insert-only); the contract (state follows the history model) is evaluated on enumerated histories; labelled bounded, never counted as proved; no deductive obligation exists for this property",
+    "aux_failure": "violation",
+    "functions_under_contract": [],
+    "assumptions": [
+        "nothing is proved; the stated bound is the whole coverage",
+        "with <= 7 points and ef = 200 the approximate search returns every stored point (an incomplete answer would be reported as a violation)",
+        "the exact tombstone count 'implied by the history' depends on the auto-compaction policy; only len() - tombstone_count() == live and the upper bound are checked",
+    ],
+    "trusted_base": ["rustc/cargo test on the scratch copy", "witness/standin_hnsw_history.rs (model)"],
+    "explanation": "vector index state vs. history model incl. save/load",
+}
+
 PRE_HOOKS = {"coercion_table": _pre_coercion_table}
 
 PROPS["C12"] = {
